@@ -19,7 +19,7 @@ TEXT = ("N1 (provenance): in the pack writer and in commit the storage key deriv
         "and blocks byte for byte: the bytes written are an unmodified view of the verified pack loader's result / of a "
         "raw read of the source for the same key on the match edge of a digest comparison with the identifier, behind a "
         "successful fetch + structural load (re-serialising a parsed block is rejected: parse-print is not the identity "
-        "on floats); the loader drops a field when empty only if commit never writes it empty. "
+        "on floats). "
         "Configuration sub-check: serde_json is resolved without preserve_order / arbitrary_precision so object keys "
         "serialise sorted. Does not decide monotone growth over a history.")
 TECHNIQUE = 'static analysis over rustc MIR: content-addressing provenance (key = hash of written bytes), effect classification of backend writes under an absence test, absence of destructive effects, print/parse normal-form agreement for blocks'
@@ -227,67 +227,6 @@ def run(facts, res):
                                       "meld writes block bytes that are not the verified raw bytes of the source's item (raw read: %s, same key: %s, digest match edge: %s, "
                                       "validated: %s/%s; value: %s): a re-serialised or unverified block need not hash to its name on the receiver" % (
                                           raw, same, matched, validated_f, validated_l, fmt(data, 5)), cb.loc(t.line))
-    # N4b: meld re-serialises blocks through the loader, so the loader may normalise a field (drop it when empty) only if
-    # commit never writes that field empty
-    ld = R.body("loader")
-    cm = facts.body("melda::Melda::commit")
-    if ld is not None and cm is not None:
-        from ..flows import flow_of
-        lf = flow_of(ld)
-        du_l = du_of(ld)
-        # locals of the loader that end up in each Delta field
-        fields = {}
-        for blk in ld.blocks:
-            for st in blk.stmts:
-                if st.kind == "assign" and st.rv.kind == "agg" and st.rv.j.get("adt") == "melda::Delta":
-                    for n_, op in zip(st.rv.j["fields"], st.rv.operands()):
-                        if op.place is not None:
-                            fields[n_] = {x[1] for x in lf.sources([("l", op.place.local)]) if x[0] == "l"}
-        guarded = {}
-        for blk in ld.blocks:
-            if blk.cleanup:
-                continue
-            for st in blk.stmts:
-                if st.kind == "assign" and st.rv.kind == "agg" and st.rv.j.get("variant") == "Some" and not st.place.proj:
-                    for fname, locs in fields.items():
-                        if st.place.local in locs and fname in ("parents", "info", "packs", "changes"):
-                            g = [l for l in lits_of(ld, blk.idx, facts) if l.kind == "call" and callee_name(l.term) == "is_empty" and l.truth is False]
-                            # the emptiness test must be about the value stored
-                            vv = {x[1] for x in walk(du_l.rvalue_term(st.rv, 12)) if x[0] == "var"}
-                            g = [l for l in g if vv & {x[1] for x in walk(l.term[2][0]) if x[0] == "var"}]
-                            if g:
-                                guarded[fname] = True
-        # writer side: which fields does commit build as `if x.is_empty() { None } else { Some(x) }` (or from a value that cannot be empty)
-        du_c = du_of(cm)
-        cf = flow_of(cm)
-        writer_nonempty = set()
-        for blk in cm.blocks:
-            for st in blk.stmts:
-                if st.kind == "assign" and st.rv.kind == "agg" and st.rv.j.get("adt") == "melda::Delta":
-                    for n_, op in zip(st.rv.j["fields"], st.rv.operands()):
-                        if op.place is None:
-                            continue
-                        srcs = {x[1] for x in cf.sources([("l", op.place.local)]) if x[0] == "l"}
-                        somes = []
-                        for b2 in cm.blocks:
-                            if b2.cleanup:
-                                continue
-                            for s2 in b2.stmts:
-                                if s2.kind == "assign" and not s2.place.proj and s2.place.local in srcs and s2.rv.kind == "agg" and \
-                                        s2.rv.j.get("variant") == "Some" and "Option" in s2.rv.j.get("adt", "") and \
-                                        cm.local_ty(s2.place.local) == cm.local_ty(op.place.local):
-                                    somes.append(b2.idx)
-                        if somes and all(any(l.kind == "call" and callee_name(l.term) == "is_empty" and l.truth is False for l in lits_of(cm, sb, facts)) for sb in somes):
-                            writer_nonempty.add(n_)
-                        t = du_c.operand_term(op, 16)
-                        if contains_call(t, "map") and contains_call(t, R.name("pack_writer")):
-                            writer_nonempty.add(n_)   # Option<String> mapped to a one-element set
-        res.instance("N4", "loader drops empty %s; commit never writes empty %s" % (sorted(guarded), sorted(writer_nonempty)), ld.loc())
-        for f_ in sorted(guarded):
-            if f_ not in writer_nonempty:
-                res.violation("N4", "block-loader|normalises:%s" % f_,
-                              "load_raw_delta drops the block field `%s` when it is empty, but commit can write it empty: meld re-serialises blocks through the "
-                              "loader, so the copy's bytes no longer hash to the block's name" % f_, ld.loc())
     res.floor("N4", "meld pack/block copy sites", n4, 2)
 
     # ------------------------------------------------------------------ N0
